@@ -129,6 +129,60 @@ theorem hasKind_tree {k v : Kind} {a : Val} (h : hasKind (.tree k v) a) :
     ∃ kvs, a = .tree kvs ∧ ∀ p ∈ kvs, hasKind k p.1 ∧ hasKind v p.2 := by
   cases a <;> simp [hasKind] at h ⊢; exact h
 
+theorem hasKind_nil {a : Val} (h : hasKind .nil a) : ∃ s, a = .seq s [] := by
+  cases a with
+  | seq s xs => simp [hasKind] at h; exact ⟨s, by rw [h]⟩
+  | _ => simp [hasKind] at h
+theorem hasKind_cons {h t : Kind} {a : Val} (hk : hasKind (.cons h t) a) :
+    ∃ s xs, a = .seq s xs ∧ (xs = [] ∨ ∃ x xs', xs = x :: xs' ∧ hasKind h x ∧ hasKind t (.seq s xs')) := by
+  cases a with
+  | seq s xs =>
+    cases xs with
+    | nil => exact ⟨s, [], rfl, Or.inl rfl⟩
+    | cons x xs' => simp only [hasKind] at hk; exact ⟨s, x :: xs', rfl, Or.inr ⟨x, xs', rfl, hk⟩⟩
+  | _ => simp [hasKind] at hk
+
+/-! ### a sequence as "nothing, or a first element and the rest": the view the per-slot kinds `cons h t` are proved through -/
+
+/-- the empty list for an empty sequence, else the one pair (first element, the remaining sequence) -/
+def Val.uncons : Val → List (Val × Val)
+  | .seq s (x :: xs) => [(x, .seq s xs)]
+  | _ => []
+
+theorem seqCmp_range (ops : FloatOps UInt64) (xs ys : List Val) :
+    seqCmp ops xs ys = -1 ∨ seqCmp ops xs ys = 0 ∨ seqCmp ops xs ys = 1 := by
+  rw [seqCmp_eq]; exact lexCmp_range xs ys
+
+/-- the comparison of two sequences is the comparison of their views: nothing is smallest, first elements decide, then
+    the remaining sequences -/
+theorem valCmp_uncons (ops : FloatOps UInt64) (s s' : SeqKind) (xs ys : List Val) :
+    valCmp ops (.seq s xs) (.seq s' ys) =
+      lexCmp (pairCmp (valCmp ops) (valCmp ops)) (Val.uncons (.seq s xs)) (Val.uncons (.seq s' ys)) := by
+  cases xs with
+  | nil => cases ys <;> simp [valCmp, seqCmp, Val.uncons, lexCmp]
+  | cons x xs =>
+    cases ys with
+    | nil => simp [valCmp, seqCmp, Val.uncons, lexCmp]
+    | cons y ys =>
+      have hr := seqCmp_range ops xs ys
+      simp only [valCmp, seqCmp, Val.uncons, lexCmp, pairCmp]
+      by_cases h1 : valCmp ops x y < 0
+      · simp [h1]
+      · by_cases h2 : valCmp ops x y > 0
+        · simp [h1, h2]
+        · simp only [h1, h2, if_false]
+          rcases hr with h | h | h <;> simp [h]
+
+theorem norm_uncons (s s' : SeqKind) (xs ys : List Val) :
+    norm (.seq s xs) = norm (.seq s' ys) ↔
+      Pointwise (fun p q : Val × Val => norm p.1 = norm q.1 ∧ norm p.2 = norm q.2) (Val.uncons (.seq s xs)) (Val.uncons (.seq s' ys)) := by
+  cases xs with
+  | nil => cases ys <;> simp [norm, normList, Val.uncons, Pointwise]
+  | cons x xs =>
+    cases ys with
+    | nil => simp [norm, normList, Val.uncons, Pointwise]
+    | cons y ys => simp [norm, normList, Val.uncons, Pointwise]
+
 /-! ### the main induction -/
 
 theorem valCmp_strict (ops : FloatOps UInt64)
@@ -201,6 +255,31 @@ theorem valCmp_strict (ops : FloatOps UInt64)
       simp only [norm, Val.entries, Val.tree.injEq]
       exact normPairs_eq_iff xs ys
 
+  | nil =>
+    refine ⟨⟨fun a b ha hb => ?_, fun a b d ha hb hd _ _ => ?_⟩, fun a b ha hb => ?_⟩
+    · obtain ⟨s, rfl⟩ := hasKind_nil ha; obtain ⟨s', rfl⟩ := hasKind_nil hb
+      simp [valCmp, seqCmp, sgn]
+    · obtain ⟨s, rfl⟩ := hasKind_nil ha; obtain ⟨s', rfl⟩ := hasKind_nil hd
+      simp [valCmp, seqCmp]
+    · obtain ⟨s, rfl⟩ := hasKind_nil ha; obtain ⟨s', rfl⟩ := hasKind_nil hb
+      simp [valCmp, seqCmp, norm, normList]
+  | cons h t ihh iht =>
+    have hp := lexCmp_strict (pairCmp_strict ihh iht)
+    refine hp.pullback Val.uncons ?_ ?_ ?_
+    · intro a ha
+      obtain ⟨s, xs, rfl, hx⟩ := hasKind_cons ha
+      rcases hx with rfl | ⟨x, xs', rfl, h1, h2⟩
+      · simp [Val.uncons]
+      · intro p hp'
+        simp only [Val.uncons, List.mem_singleton] at hp'
+        rw [hp']; exact ⟨h1, h2⟩
+    · intro a b ha hb
+      obtain ⟨s, xs, rfl, _⟩ := hasKind_cons ha; obtain ⟨s', ys, rfl, _⟩ := hasKind_cons hb
+      exact valCmp_uncons ops s s' xs ys
+    · intro a b ha hb
+      obtain ⟨s, xs, rfl, _⟩ := hasKind_cons ha; obtain ⟨s', ys, rfl, _⟩ := hasKind_cons hb
+      exact norm_uncons s s' xs ys
+
 /-! ### float-free kinds do not depend on the floating-point operations -/
 
 theorem lexCmp_congr {α : Type} {c c' : α → α → Int} :
@@ -240,6 +319,21 @@ theorem valCmp_ops_irrelevant (ops ops' : FloatOps UInt64) :
     simp only [valCmp, entriesCmp_eq, pairsCmp_eq_lexCmp]
     exact lexCmp_congr xs ys (fun p mp q mq =>
       pairCmp_congr p q (ihk hf.1 p.1 q.1 (hx p mp).1 (hy q mq).1) (ihv hf.2 p.2 q.2 (hx p mp).2 (hy q mq).2))
+
+  | nil => intro _ a b ha hb; obtain ⟨s, rfl⟩ := hasKind_nil ha; obtain ⟨s', rfl⟩ := hasKind_nil hb; simp [valCmp, seqCmp]
+  | cons h t ihh iht =>
+    intro hf a b ha hb
+    obtain ⟨s, xs, rfl, hx⟩ := hasKind_cons ha; obtain ⟨s', ys, rfl, hy⟩ := hasKind_cons hb
+    rw [valCmp_uncons ops, valCmp_uncons ops']
+    rcases hx with rfl | ⟨x, xs', rfl, hx1, hx2⟩
+    · cases ys <;> simp [Val.uncons, lexCmp]
+    · rcases hy with rfl | ⟨y, ys', rfl, hy1, hy2⟩
+      · simp [Val.uncons, lexCmp]
+      · simp only [Val.uncons]
+        exact lexCmp_congr _ _ (fun p mp q mq => by
+          simp only [List.mem_singleton] at mp mq
+          subst mp; subst mq
+          exact pairCmp_congr _ _ (ihh hf.1 x y hx1 hy1) (iht hf.2 _ _ hx2 hy2))
 
 /-! ### Tree iteration order: `treeOf` is strictly descending and holds each key once -/
 
